@@ -4,7 +4,8 @@ open SSV SSV.Relay
 
 /-
 Line protocol of ssv_c11 (one line in, one line out):
-  cfg <cap> <byaddr 0|1> <src 0|1> <shared 0|1|code>      reset; `shared=code` uses the regenerated Gen fact
+  cfg <cap> <byaddr 0|1> <src 0|1> <shared 0|1|code> [<upip> <upport>]
+                                                          reset; `shared=code` uses the regenerated Gen fact; upip/upport = upstream proxy
   recv <key> <src> none | ip <a> <port> <pl> | dom <d> <port> <pl>
                                                           -> noop | new <sid> <qlen> | old <sid> <qlen>
   initok <sid> | initfail <sid> | evict <sid>             -> ok | noop
@@ -44,12 +45,15 @@ def sessChanged (old new : State) (sid : Nat) : String :=
 
 def stepC11 (d : DSt) (line : String) : DSt × String :=
   match fields line with
-  | ["cfg", cap, ba, src, sh] =>
+  | "cfg" :: cap :: ba :: src :: sh :: up =>
     match cap.toNat? with
     | some c =>
       let shared := if sh == "code" then SSV.Gen.C11.packerShared else boolOf sh
+      let upstream : Option (IP × Nat) := match up with
+        | [a, p] => do some (← a.toNat?, ← p.toNat?)
+        | _ => none
       ({ cfg := { cap := c, byAddr := boolOf ba, carriesSource := boolOf src, insertFirst := !codeRecvOK,
-                  packerOf := packerOfShared shared }, st := State.init }, "ok")
+                  upstream := upstream, packerOf := packerOfShared shared }, st := State.init }, "ok")
     | none => (d, "bad-op")
   | "recv" :: key :: src :: rest =>
     match key.toNat?, src.toNat?, parsePkt rest with
